@@ -10,7 +10,8 @@ Line-protocol driver for the signals group (C16, C17, C18-signals).  One output 
       subs | get n                               (vs: comma separated ints, `-` = empty)
   scenario comp owner.name.kind,… h:c.c,…       C17 machine; kind ∈ obs|comp; handler programs (`-` = none)
       define c o n TREE | assign o n v | read c | observe o n h | unobserve o n h | drop h
-      TREE: ( ret v ) | ( read o n T… ) | ( readc c T… ) | ( write o n v T )   branch i for value i, last = otherwise
+      TREE: ( ret v ) | ( read o n T… ) | ( readc c T… ) | ( write o n v T ) | ( fail )
+            branch i for value i, last = otherwise; `fail` = the function raises (ZeroDivisionError, `err Zero`)
 -/
 open Mesa.Signals
 
@@ -52,6 +53,7 @@ def fmtDeliv (d : Nat × Sig) : String :=
 
 def fmtErr : Err → String
   | .value => "err Value" | .key => "err Key" | .index => "err Index" | .attr => "err Attr" | .fuel => "err Fuel"
+  | .user => "err Zero"
   | .noneVal => "ok None"
 
 def fmtOut : Out → String
@@ -107,6 +109,7 @@ inductive Syn where
   | read (k : Key) (bs : List Syn)
   | readC (c : Nat) (bs : List Syn)
   | write (k : Key) (v : Int) (t : Syn)
+  | fail
 deriving Inhabited
 
 instance : Inhabited Tree := ⟨.ret 0⟩
@@ -114,6 +117,7 @@ instance : Inhabited Tree := ⟨.ret 0⟩
 /-- recursive descent; returns the tree and the remaining tokens -/
 partial def parseSyn : List String → Option (Syn × List String)
   | "(" :: "ret" :: v :: ")" :: rest => do pure (.ret (← v.toInt?), rest)
+  | "(" :: "fail" :: ")" :: rest => some (.fail, rest)
   | "(" :: "read" :: o :: n :: rest => do
       let (bs, rest) ← parseMany rest
       if bs.isEmpty then none else pure (.read (← o.toNat?, ← n.toNat?) bs, rest)
@@ -142,6 +146,7 @@ partial def toTree : Syn → Tree
   | .read k bs => .read k fun v => toTree (pick bs v)
   | .readC c bs => .readC c fun v => toTree (pick bs v)
   | .write k v t => .write k v (toTree t)
+  | .fail => .fail
 
 def parseCDecl (s : String) : Option (Nat × Decl) :=
   match s.splitOn "." with
